@@ -13,6 +13,7 @@ import (
 	"os"
 	"path/filepath"
 	"sort"
+	"strings"
 	"testing"
 	"time"
 
@@ -200,6 +201,35 @@ func vfMismatchedReceivers(c *vfSerCase) (out []*vfSerState, desc []string) {
 		}
 		add(func(cc *vfSerCase) { cc.Kind, cc.Hyb, cc.Text = "bm25", nil, &vfC03Case{} }, "receiver of kind bm25")
 	}
+	// every OTHER kind, with small default parameters (the pairings not listed above)
+	have := map[string]bool{}
+	for _, d := range desc {
+		if strings.HasPrefix(d, "receiver of kind ") {
+			have[strings.TrimPrefix(d, "receiver of kind ")] = true
+		}
+	}
+	for _, k := range []string{"flat", "hnsw", "ivf", "pq", "ivfpq", "bm25", "metadata", "hybrid"} {
+		if k == c.Kind || have[k] {
+			continue
+		}
+		k := k
+		add(func(cc *vfSerCase) {
+			cc.Kind, cc.Vec, cc.Text, cc.Meta, cc.Hyb = k, nil, nil, nil, nil
+			switch k {
+			case "bm25":
+				cc.Text = &vfC03Case{}
+			case "metadata":
+				cc.Meta = &vfC04Case{}
+			case "hybrid":
+				cc.Hyb = &vfC05Case{HasVec: true, HasText: true, HasMeta: true, VecKind: "flat", Metric: string(Euclidean), Dim: 2}
+			default:
+				cc.Vec = &vfC02Case{Kind: k, Dim: 2, Metric: string(Euclidean), M: 1, NBits: 2, NList: 2, EfC: 50, EfS: 50}
+				if k == "hnsw" {
+					cc.Vec.M = 8
+				}
+			}
+		}, "receiver of kind "+k)
+	}
 	return out, desc
 }
 
@@ -335,17 +365,23 @@ func vfC16Run(c vfSerCase, ctx *vfCtx) *vfViolation {
 		if ps+8 > len(stream) {
 			continue
 		}
-		patched := append([]byte{}, stream...)
-		binary.LittleEndian.PutUint32(patched[ps+4:], binary.LittleEndian.Uint32(patched[ps+4:])+1)
-		dst, err := vfSerNew(&c, false)
-		if err != nil {
-			return vfFail("constructing the receiver: %v", err)
+		ver := binary.LittleEndian.Uint32(stream[ps+4:])
+		for _, other := range []uint32{ver + 1, ver + 255, 0, ver - 1, 0xFFFFFFFF, ver << 8} {
+			if other == ver {
+				continue
+			}
+			patched := append([]byte{}, stream...)
+			binary.LittleEndian.PutUint32(patched[ps+4:], other)
+			dst, err := vfSerNew(&c, false)
+			if err != nil {
+				return vfFail("constructing the receiver: %v", err)
+			}
+			rerr, p, hung := vfReadGuarded(dst, patched)
+			if p != nil || hung || rerr == nil {
+				return vfFail("%s: a stream whose format version (component at offset %d) is changed from %d to %d is not rejected: err=%v panic=%v hung=%v", c.Kind, ps, ver, other, rerr, p, hung)
+			}
+			ctx.Count("images_checked", 1)
 		}
-		rerr, p, hung := vfReadGuarded(dst, patched)
-		if p != nil || hung || rerr == nil {
-			return vfFail("%s: a stream whose format version (component at offset %d) is bumped is not rejected: err=%v panic=%v hung=%v", c.Kind, ps, rerr, p, hung)
-		}
-		ctx.Count("images_checked", 1)
 	}
 	if len(src.live) >= 1 && len(stream) >= 40 {
 		ctx.NonTrivial()
